@@ -10,7 +10,7 @@
    This file contains the statement only. *)
 Require Export Sml.Base.Prelude Sml.Base.Crc Sml.Spec.Frame Sml.Model.Decode Sml.Model.Encode.
 Require Export Sml.Model.Frontends Sml.Model.Parser Sml.Model.Reader.
-Require Export Sml.Proofs.RoundTrip Sml.Proofs.FrontendsAgree Sml.Proofs.EndToEnd.
+Require Export Sml.Proofs.RoundTrip Sml.Proofs.FrontendsAgree Sml.Proofs.EndToEnd Sml.Proofs.SoundFrontends.
 
 Theorem C01_roundtrip : forall (cap : cap_t) (p : list byte),
   cap_ok cap (length p) ->
@@ -25,6 +25,11 @@ Theorem C01_roundtrip : forall (cap : cap_t) (p : list byte),
      snd (rd_all cap (length (frame p) + 2) (rd_new kind (map SByte (frame p)))) = [RdOk p]).
 Proof. exact roundtrip_all. Qed.
 Print Assumptions C01_roundtrip.
+
+(* consequence: the wire format is uniquely decodable - different payloads have different frames *)
+Theorem C01_injective : forall p q : list byte, frame p = frame q -> p = q.
+Proof. exact frame_injective. Qed.
+Print Assumptions C01_injective.
 
 (* the re-alignment case at capacity exactly |p|, with withheld zeros before the 0x1b run *)
 Example C01_realign_exact_capacity :
